@@ -236,6 +236,17 @@ func getParentMethodT(
 	return nil
 }
 
+// GetOwnMethodT returns the instance method registered for exactly this class
+// (no inheritance, no frame fallback), or nil.
+func GetOwnMethodT(frame, targetClass, targetMethod string, isPrivate bool) *T {
+	return TFrame[methodTFrameKey(frame, targetClass, targetMethod, isPrivate)]
+}
+
+// GetOwnClassMethodT is GetOwnMethodT for class methods.
+func GetOwnClassMethodT(frame, targetClass, targetMethod string, isPrivate bool) *T {
+	return TFrame[classMethodTFrameKey(frame, targetClass, targetMethod, isPrivate)]
+}
+
 func GetMethodT(frame, targetClass, targetMethod string, isPrivate bool) *T {
 	methodT, ok :=
 		TFrame[methodTFrameKey(frame, targetClass, targetMethod, isPrivate)]
